@@ -173,6 +173,7 @@ def run(ctx):
         parts["tlc_" + k] = round(res.wall_s, 1)
     parts["tlc_enumerations_side_by_side"] = round(time.time() - t0, 1)
     n_enum_ops, n_enum_signs, n_enum_gram = results["ops"].distinct, results["signs"].distinct, results["gram"].distinct
+    n_enum_mixed = results["mixed"].distinct
     envs3, shapes = _records(results["shapes"], "shapes")
     envs2, trees = _records(results["ops"], "ops")
     envs1, strees = _records(results["signs"], "signs")
@@ -191,8 +192,8 @@ def run(ctx):
             return _tlc(ctx, MC, cfg, tag=f"rand{k}", deadlock=False, timeout=3000, seed=ctx.seed + k, workers=1, heap="2g")
 
         with concurrent.futures.ThreadPoolExecutor(8) as ex:
-            results = list(ex.map(one, range(8)))
-        for res in results:
+            rand_results = list(ex.map(one, range(8)))
+        for res in rand_results:
             _design_ok(res, "random trees of depth 3")
             e, rr = _records(res, "rand")
             if e != envs2:
@@ -329,7 +330,7 @@ def run(ctx):
                        per_class_ops=20 if thorough else 2, per_class_grammar=12 if thorough else 2, per_class_signs=12 if thorough else 2,
                        sample_rem=rem, shape_strings=len(shapes), shape_symbols=["N", "M", "K"]),
         trees_enumerated_by_tlc=dict(operators=n_enum_ops, signs=n_enum_signs, grammar=n_enum_gram,
-                                     mixed_signs_depth3=results["mixed"].distinct),
+                                     mixed_signs_depth3=n_enum_mixed),
         trees_replayed=dict(operators=len(trees), signs=len(strees), mixed_signs_depth3=len(mtrees), grammar=len(gtrees),
                             random_depth3=len(rtrees)),
         texts_parsed_by_real_parser=agg.get("texts", 0),
